@@ -256,7 +256,12 @@ func (c *Client) connect() error {
 
 	// Client is ok, we now open XMPP session with TLS negotiation if possible and session resume or binding
 	// depending on state.
-	if c.Session, err = NewSession(c, state); err != nil {
+	session, err := NewSession(c, state)
+	if session != nil {
+		// On an early failure there is no new session: keep the previous one and its resumption state.
+		c.Session = session
+	}
+	if err != nil {
 		// Try to get the stream close tag from the server.
 		go func() {
 			for {
